@@ -41,6 +41,7 @@ type Cfg struct {
 	MapStructKey      bool // struct-like map keys
 	UnionDefaults     bool
 	DistinctThrows    bool // a throws list names each exception type at most once
+	NoBinKeyConstRef  bool // a binary map key is never written as a reference to a binary constant (known finding)
 	NoZeroThrowsID    bool // no throws entry has id 0 (it would share the id of `success` in the result struct)
 }
 
@@ -69,7 +70,8 @@ type gen struct {
 	prog *Program
 	file *File
 	// candidates visible from the current file
-	depth int
+	depth      int
+	noConstRef bool
 }
 
 var stems = []string{"user", "Item", "order_info", "HTTPReq", "url", "id", "Data", "node", "Val", "my_type", "Resp", "req", "Base", "info_v", "Kind", "state", "X", "a_b_c", "Config", "elem"}
@@ -649,7 +651,7 @@ func ConstRefText(from *File, d *Def) string {
 // genValue draws a written value for the declared type, or nil if none can be written.
 func (g *gen) genValue(t *Type, depth int) *Value {
 	// reference to an existing constant of structurally the same type
-	if g.p(1, 6, "constref") {
+	if !g.noConstRef && g.p(1, 6, "constref") {
 		cands := g.visible(func(d *Def) bool { return d.Kind == KConst && TypeEqual(d.Type, t) })
 		if len(cands) > 0 {
 			c := rapid.SampledFrom(cands).Draw(g.t, "refconst")
@@ -736,7 +738,11 @@ func (g *gen) genValue(t *Type, depth int) *Value {
 		}
 		n := g.intn(0, 3, "nentries")
 		for i := 0; i < n; i++ {
+			if g.cfg.NoBinKeyConstRef && ft.Key.FinalCat() == "binary" {
+				g.noConstRef = true
+			}
 			k := g.genValue(ft.Key, depth-1)
+			g.noConstRef = false
 			if k == nil || containsSame(v.Keys, k) {
 				continue
 			}
